@@ -481,7 +481,7 @@ def check(prop, tier):
 
 def replay(path):
     """re-run the requests of a replay file through harness (both profiles) and driver"""
-    m = re.search(r'/(C\d+)-', path)
+    m = re.search(r'/(C\d+)[-.]', path)
     prop = m.group(1)
     cfg = P.PROPS[prop]
     ctx = Ctx(prop, 'quick', 0)
@@ -496,6 +496,19 @@ def replay(path):
             for l in p.stdout.splitlines():
                 if l.startswith('SPEC ') or l.startswith('DIFF '):
                     print(f'[{prof}/{b}] {l}'); bad += 1
+            if cfg.get('oracle') and prof == 'rel':
+                # the real-valued clauses are judged by the search oracle on the implementation's answers (known findings are reported, not counted)
+                h = subprocess.run(f'{HARNESS}/target/{prof}/{b}', shell=True, input='\n'.join(reqs) + '\n', stdout=subprocess.PIPE, text=True)
+                o = subprocess.run(['python3-vt', VERIF + '/tools/oracle_mp.py'], input=h.stdout, stdout=subprocess.PIPE, text=True)
+                known = load_known()
+                for l in o.stdout.splitlines():
+                    if l.startswith('ORACLE '):
+                        req = l[7:].split(' => ')[0]
+                        hit = next((k for k in known if finding_matches(k, prop, req, 'rel')), None)
+                        if hit:
+                            print(f"KNOWN-FINDING: property={prop} id={hit['id']} {l[7:200]}")
+                        else:
+                            print(f'[{prof}/{b}/oracle] {l[7:]}'); bad += 1
     print('replay: %d failing/disagreeing lines' % bad)
     return 1 if bad else 0
 
